@@ -328,6 +328,11 @@ func lambdaOf(e *env, idx int) *compose.Lambda {
 		return false
 	}
 	switch spec.Kind {
+	case "anyx":
+		return compose.TransformableLambda(func(ctx context.Context, in *schema.StreamReader[any]) (*schema.StreamReader[any], error) {
+			e.exec(idx)
+			return in, nil
+		})
 	case "xform":
 		return compose.TransformableLambda(func(ctx context.Context, in *schema.StreamReader[M]) (*schema.StreamReader[M], error) {
 			if rerun(e.exec(idx), in) {
